@@ -162,62 +162,82 @@ def lean_files_for(mod):
     return files
 
 
-def step_prove(ctx, mod):
-    """Build the property module, audit axioms, grep sources.
+def step_prove(ctx, mods):
+    """Build the property module(s), audit axioms of every theorem in them, grep sources.
+    `mods` = module name or list; the first is the property's own file.
     Returns dict(obligations, discharged, theorems{name: axioms})"""
     t = time.time()
-    path, namespace, thms, examples, _ = parse_props_file(mod)
-    rc, out, err, _ = lake_build([mod])
-    res = {'module': mod, 'theorems': {}, 'examples': examples, 'obligations': len(thms) + examples,
-           'discharged': 0, 'build_rc': rc}
+    if isinstance(mods, str):
+        mods = [mods]
+    parsed = []
+    for mod in mods:
+        try:
+            parsed.append((mod,) + parse_props_file(mod))
+        except FileNotFoundError:
+            ctx.broken.append({'kind': 'proof', 'name': mod, 'detail': 'property module missing'})
+            parsed.append((mod, '', '', [], 0, ''))
+    n_thm = sum(len(p[3]) for p in parsed)
+    n_ex = sum(p[4] for p in parsed)
+    res = {'module': ' '.join(mods), 'theorems': {}, 'examples': n_ex, 'obligations': n_thm + n_ex,
+           'discharged': 0, 'build_rc': None}
+    rc, out, err, _ = lake_build(mods)
+    res['build_rc'] = rc
     if rc != 0:
         msg = (out + err).decode(errors='replace')
-        # which declarations failed?
         failed = sorted(set(re.findall(r'error: ([^\n]*)', msg)))[:8]
-        ctx.broken.append({'kind': 'proof', 'name': mod, 'detail': tail_errors(msg)})
+        ctx.broken.append({'kind': 'proof', 'name': ' '.join(mods), 'detail': tail_errors(msg)})
         res['errors'] = failed
-        ctx.log('prove FAILED', mod)
+        ctx.log('prove FAILED', mods)
         ctx.steps['prove'] = {**res, 'wall_s': round(time.time() - t, 2)}
         return res
-    # audit
     adir = os.path.join(BUILD, 'audit')
     os.makedirs(adir, exist_ok=True)
     afile = os.path.join(adir, ctx.pid + '.lean')
+    names = []
     with open(afile, 'w') as f:
-        f.write(f'import {mod}\n')
-        for th in thms:
-            full = f'{namespace}.{th}' if namespace else th
-            f.write(f'#print axioms {full}\n')
+        for mod in mods:
+            f.write(f'import {mod}\n')
+        for mod, path, namespace, thms, examples, _ in parsed:
+            for th in thms:
+                full = f'{namespace}.{th}' if namespace else th
+                names.append(full)
+                f.write(f'#print axioms {full}\n')
     rc2, out2, err2, _ = run(['lake', 'env', 'lean', afile], cwd=LEAN, timeout=1200)
     text = (out2 + err2).decode(errors='replace')
-    cur = None
     axioms = {}
     for m in re.finditer(r"'([^']+)' (depends on axioms: \[([^\]]*)\]|does not depend on any axioms)", text, re.S):
         name = m.group(1)
         axs = [a.strip() for a in (m.group(3) or '').replace('\n', ' ').split(',') if a.strip()]
-        axioms[name.split('.')[-1]] = axs
+        axioms[name] = axs
     bad = []
-    for th in thms:
-        if th not in axioms:
-            bad.append((th, ['<not reported>']))
-        elif not set(axioms[th]) <= ALLOWED_AXIOMS:
-            bad.append((th, axioms[th]))
-    hits = source_grep(lean_files_for(mod))
-    res['theorems'] = axioms
+    for full in names:
+        if full not in axioms:
+            bad.append((full, ['<not reported>']))
+        elif not set(axioms[full]) <= ALLOWED_AXIOMS:
+            bad.append((full, axioms[full]))
+    files = []
+    for mod in mods:
+        for fpath in lean_files_for(mod):
+            if fpath not in files:
+                files.append(fpath)
+    hits = source_grep(files)
+    res['theorems'] = {k.split('.', 2)[-1] if k.startswith('S4V.Props.') else k: v for k, v in axioms.items()}
     res['forbidden_source_hits'] = hits
-    res['discharged'] = (len(thms) - len(bad)) + examples
+    res['lean_files_in_closure'] = len(files)
+    res['discharged'] = (len(names) - len(bad)) + n_ex
     if rc2 != 0 or bad or hits:
-        ctx.broken.append({'kind': 'audit', 'name': mod,
+        ctx.broken.append({'kind': 'audit', 'name': ' '.join(mods),
                            'detail': f'bad axioms: {bad}; forbidden: {hits}; rc={rc2} {text[-400:] if rc2 else ""}'})
         ctx.log('audit FAILED', bad, hits)
     if ctx.thorough and rc == 0:
-        rc3, out3, err3, w3 = run(['lake', 'env', 'leanchecker', mod], cwd=LEAN, timeout=3000)
-        res['leanchecker_rc'] = rc3
-        res['leanchecker_wall_s'] = round(w3, 1)
-        if rc3 != 0:
-            ctx.broken.append({'kind': 'audit', 'name': 'leanchecker ' + mod,
-                               'detail': (out3 + err3).decode(errors='replace')[-800:]})
+        for mod in mods:
+            rc3, out3, err3, w3 = run(['lake', 'env', 'leanchecker', mod], cwd=LEAN, timeout=3000)
+            res.setdefault('leanchecker', {})[mod] = {'rc': rc3, 'wall_s': round(w3, 1)}
+            if rc3 != 0:
+                ctx.broken.append({'kind': 'audit', 'name': 'leanchecker ' + mod,
+                                   'detail': (out3 + err3).decode(errors='replace')[-800:]})
     ctx.steps['prove'] = {**res, 'wall_s': round(time.time() - t, 2)}
+    ctx.log(f'prove: {res["discharged"]}/{res["obligations"]} obligations ({len(names)} theorems, {n_ex} examples) in {mods}')
     return res
 
 
@@ -416,7 +436,7 @@ def decide(ctx, prove_res, corr_results, oracle_res, level_note, assumptions, ex
     cov = {
         'obligations': prove_res.get('obligations', 0) if prove_res else 0,
         'discharged': prove_res.get('discharged', 0) if prove_res else 0,
-        'checker_cmd': f"cd /verif/lean && lake build {prove_res.get('module') if prove_res else ''} && lake env lean <audit: #print axioms of every theorem>",
+        'checker_cmd': f"cd /verif/lean && lake build {prove_res.get('module') if prove_res else ''} && lake env lean /verif/.build/audit/{ctx.pid}.lean   # '#print axioms' of every theorem; then source grep for sorry/axiom/native_decide",
         'trusted_base': TRUSTED_BASE_COMMON + list(assumptions),
         'theorems': prove_res.get('theorems', {}) if prove_res else {},
         'examples_non_vacuity': prove_res.get('examples', 0) if prove_res else 0,
@@ -504,3 +524,47 @@ def merge_oracles(results):
         out['rule'] = (out['rule'] + ' | ' if out['rule'] else '') + r.get('rule', '')
         out['parts'].append({k: v for k, v in r.items() if k not in ('failures', 'samples')})
     return out
+
+
+# ---------------------------------------------------------------- standard check
+
+def standard_check(ctx, gen, mods, components, oracle_fn, level_note, assume, need_s4=True, need_harness=True,
+                   extra_corr_fn=None):
+    """gen: list of Gen modules; mods: Lean property modules; components: list of
+    (harness component, n_quick, n_thorough); oracle_fn(ctx) -> oracle result (merged) or None;
+    extra_corr_fn(ctx) -> list of extra correspondence results (e.g. trace replay)."""
+    ok_gen = step_gen(ctx, gen) if gen else True
+    prove = step_prove(ctx, mods) if ok_gen else {'module': ' '.join(mods), 'obligations': 0, 'discharged': 0}
+    ok_drv = step_drv(ctx) if ok_gen else False
+    ok_impl = step_build_impl(ctx, need_s4=need_s4, need_harness=need_harness)
+    corr = []
+    if ok_drv and ok_impl:
+        for comp, nq, nt in components:
+            corr.append(correspond(ctx, comp, ctx.q(nq, nt)))
+    orc = None
+    if ok_impl:
+        orc = oracle_fn(ctx) if oracle_fn else None
+        if extra_corr_fn and ok_drv:
+            corr += extra_corr_fn(ctx)
+    return decide(ctx, prove, corr, orc, level_note, assume)
+
+
+def generic_replay(ctx, data, components=()):
+    """Re-run what a replay file recorded: correspondence requests through both
+    sides, and print the recorded failing input."""
+    step_build_impl(ctx, need_s4=True)
+    step_drv(ctx)
+    f = data.get('failure')
+    if f:
+        print('recorded failing input:', json.dumps({k: (v if not isinstance(v, str) or len(v) < 400 else v[:400] + '…') for k, v in f.items()}, default=str)[:3000])
+    for b in data.get('broken_obligations', []) or []:
+        print('broken obligation:', b.get('kind'), b.get('name'), '-', (b.get('detail') or '')[:600])
+        for d in b.get('disagreements', []) or []:
+            req = d['request']
+            comp = req.split(' ', 1)[0]
+            comp = {'blk': 'line'}.get(comp, comp)
+            rc, out, _, _ = run([S4H, comp, '--replay', '-'], input=(req + '\n').encode())
+            rc2, out2, _, _ = run([DRV], input=(req + '\n').encode())
+            print('request', req[:300], '\n  impl :', out.decode(errors='replace').strip().split('\t')[-1][:400],
+                  '\n  model:', out2.decode(errors='replace').strip()[:400])
+    return 0
